@@ -36,6 +36,51 @@ func c13QROneCS(r *fw.Rec, mode qrref.Mode, l qrref.Level, n, forced int, viaWri
 	return c13QROneGS1(r, mode, l, n, forced, viaWriter, cs, nil)
 }
 
+// c13QRByteHinted: byte-mode content of n bytes under a CHARACTER_SET hint: the symbol carries a
+// 12-bit ECI header (4-bit mode indicator + one-byte designator), and the lowest version is the
+// standard's for 12 bits less.
+func c13QRByteHinted(r *fw.Rec, l qrref.Level, n, forced int, viaWriter bool) bool {
+	text, _, _ := qrPayload(r.Rng, qrref.Byte, n)
+	hints := qrHints(forced, int(r.Rng.Intn(8)), "UTF-8")
+	want := qrref.MinVersionWithHeader(n, qrref.Byte, l, 12)
+	fits := want != 0
+	if forced > 0 {
+		fits = qrref.CapacityWithHeader(forced, l, qrref.Byte, 12) >= n
+		want = forced
+	}
+	info := map[string]interface{}{"mode": "byte", "level": qrLevelName[l], "length": n, "forced_version": forced, "expected_version": want, "fits": fits, "charset_hint": "UTF-8"}
+	r.Evals(1)
+	got := 0
+	var err error
+	if viaWriter {
+		hints[gozxing.EncodeHintType_ERROR_CORRECTION] = qrLibLevel[l]
+		var bm *gozxing.BitMatrix
+		bm, err = qrcode.NewQRCodeWriter().Encode(text, gozxing.BarcodeFormat_QR_CODE, 0, 0, hints)
+		if err == nil {
+			got = (bm.GetWidth() - 8 - 17) / 4
+		}
+	} else {
+		var code *qrenc.QRCode
+		code, err = qrenc.Encoder_encode(text, qrLibLevel[l], hints)
+		if err == nil {
+			got = code.GetVersion().GetVersionNumber()
+		}
+	}
+	switch {
+	case fits && err != nil:
+		r.Violation("model-mismatch", "qr.version:refused-fitting-content:hinted-byte", fmt.Sprintf("%d bytes under a CHARACTER_SET hint at level %s (forced version %d) refused: %v; with the 12-bit ECI header the standard admits version %d", n, qrLevelName[l], forced, err, want), info)
+		return false
+	case !fits && err == nil:
+		r.Violation("model-mismatch", "qr.version:accepted-beyond-capacity:hinted-byte", fmt.Sprintf("%d bytes under a CHARACTER_SET hint at level %s (forced version %d) accepted as version %d", n, qrLevelName[l], forced, got), info)
+		return false
+	case fits && got != want:
+		r.Violation("model-mismatch", "qr.version:not-smallest-or-not-forced:hinted-byte", fmt.Sprintf("%d bytes under a CHARACTER_SET hint at level %s (forced version %d): version %d, expected %d", n, qrLevelName[l], forced, got, want), info)
+		return false
+	}
+	r.Tally("qr_hinted_byte_boundaries")
+	return true
+}
+
 // c13QROneGS1: gs1 != nil adds a GS1_FORMAT hint with that value.  A false value (bool or
 // string) leaves the symbol a plain one with the plain capacity; a true value puts the 4-bit
 // FNC1-in-first-position indicator before the segment, and the capacity is the standard's for
@@ -68,6 +113,11 @@ func c13QROneGS1(r *fw.Rec, mode qrref.Mode, l qrref.Level, n, forced int, viaWr
 	var err error
 	if viaWriter {
 		hints[gozxing.EncodeHintType_ERROR_CORRECTION] = qrLibLevel[l]
+		if l == qrref.L && r.Rng.Bool() {
+			// level L is the writer's default: the same hints without naming it
+			delete(hints, gozxing.EncodeHintType_ERROR_CORRECTION)
+			r.Tally("qr_writer_default_level")
+		}
 		var bm *gozxing.BitMatrix
 		bm, err = qrcode.NewQRCodeWriter().Encode(text, gozxing.BarcodeFormat_QR_CODE, 0, 0, hints)
 		if err == nil {
@@ -358,7 +408,7 @@ func c13DMContent(r *fw.Rec, text string, shape int, class string) bool {
 }
 
 func c13(c *fw.Ctx) {
-	c.Rule("QR: for every (mode, level, version) the lengths cap(v) and cap(v)+1 with automatic version, and forced versions v (exact), v-1 (refused) and v+1 (honoured); the same boundaries for numeric / alphanumeric content under a CHARACTER_SET hint (which must not cost capacity); thorough: every length 1..cap(40)+1 for all 16 (mode, level) pairs; observed through Encoder_encode's version and through the writer's 0x0 output dimension; expected version from qrref capacities (ISO 18004 tables). Data Matrix: every codeword count 1..1559 x 3 shapes through SymbolInfo_Lookup and (as digit strings) through the writer's 0x0 output size, and (min, max) dimension pairs drawn from the 30 sizes (+-1), compared with dmref's Table 7 in capacity order; distinct = distinct (kind, mode/shape, level, length, hints)")
+	c.Rule("QR: for every (mode, level, version) the lengths cap(v) and cap(v)+1 with automatic version, and forced versions v (exact), v-1 (refused) and v+1 (honoured); the same boundaries for numeric / alphanumeric content under a CHARACTER_SET hint (which must not cost capacity) and for byte content under the hint (capacity for 12 bits less); level L through the writer also as its unnamed default; thorough: every length 1..cap(40)+1 for all 16 (mode, level) pairs; observed through Encoder_encode's version and through the writer's 0x0 output dimension; expected version from qrref capacities (ISO 18004 tables). Data Matrix: every codeword count 1..1559 x 3 shapes through SymbolInfo_Lookup and (as digit strings) through the writer's 0x0 output size, and (min, max) dimension pairs drawn from the 30 sizes (+-1), compared with dmref's Table 7 in capacity order; distinct = distinct (kind, mode/shape, level, length, hints)")
 	c.Assume("payloads select their mode unambiguously (digits / 45-set with a letter / UTF-8 with a lower-case letter / Shift_JIS double-byte with the Shift_JIS hint); the mask is forced to skip the penalty search")
 	// --- published figures
 	c.Run("published", func(r *fw.Rec) {
@@ -404,6 +454,14 @@ func c13(c *fw.Ctx) {
 					}
 					if ok && v > 1 {
 						ok = c13QROne(r, mode, l, 1+r.Rng.Intn(capv), v, viaWriter)
+					}
+					if ok && mode == qrref.Byte {
+						if capH := qrref.CapacityWithHeader(v, l, mode, 12); capH >= 1 {
+							ok = c13QRByteHinted(r, l, capH, 0, viaWriter) && c13QRByteHinted(r, l, capH+1, 0, false) && c13QRByteHinted(r, l, capH, v, false) && c13QRByteHinted(r, l, capH+1, v, false)
+							if ok && capH > 3 {
+								ok = c13QRByteHinted(r, l, capH-1-r.Rng.Intn(3), 0, false)
+							}
+						}
 					}
 					if ok && (mode == qrref.Numeric || mode == qrref.Alphanumeric) {
 						cs := []string{"UTF-8", "ISO-8859-1", "Shift_JIS", "windows-1252", "ASCII"}[(v+int(l))%5]
@@ -586,6 +644,8 @@ func c13(c *fw.Ctx) {
 	c.Floor("qr_version_as_expected", 1500)
 	c.Floor("qr_hinted_non_byte_boundaries", 250)
 	c.Floor("qr_gs1_hint_boundaries", 250)
+	c.Floor("qr_hinted_byte_boundaries", 600)
+	c.Floor("qr_writer_default_level", 20)
 	c.Floor("qr_refused_as_expected", 300)
 	c.Floor("dm_lookup_symbol_as_expected", 3000)
 	c.Floor("dm_writer_symbol_as_expected", 300)
